@@ -339,3 +339,313 @@ def laws(F):
     L.eq(F['m4_from_m3'](F['m3_identity']()), F['m4_identity']())
     out.append(L)
     return out
+
+
+# ===========================================================================
+# C02: determinant / inverse / transpose
+
+def rename_call(law, root_map):
+    """poly call text of a Law with its struct roots renamed (e.g. m -> self)"""
+    args = []
+    for _, c in law.atoms():
+        for a, b in root_map.items():
+            if c == a + '@' or c.startswith(a + '.'):
+                c = b + c[len(a):]
+        args.append(c)
+    return 'poly::p_%s(%s);' % (law.name, ', '.join(args))
+
+
+def det_sub123(m):
+    """lanes of det_sub_proc_unsafe(m, 1, 2, 3), in the shape the code computes them"""
+    V4 = V[4]
+    s = lambda k: at(m, k // 4, k % 4)
+    x, y, z = 1, 2, 3
+    a = [s(4 + x), s(12 + x), s(x), s(8 + x)]
+    b = [s(8 + y), s(8 + y), s(4 + y), s(4 + y)]
+    c = [s(12 + z), s(z), s(12 + z), s(z)]
+    d = [s(8 + x), s(8 + x), s(4 + x), s(4 + x)]
+    e = [s(12 + y), s(y), s(12 + y), s(y)]
+    f = [s(4 + z), s(12 + z), s(z), s(8 + z)]
+    g = [s(12 + x), s(x), s(12 + x), s(x)]
+    h = [s(4 + y), s(12 + y), s(y), s(8 + y)]
+    i = [s(8 + z), s(8 + z), s(4 + z), s(4 + z)]
+    lanes = []
+    for k in range(4):
+        t = a[k] * (b[k] * c[k])
+        t = t + d[k] * (e[k] * f[k])
+        t = t + g[k] * (h[k] * i[k])
+        t = t - a[k] * (e[k] * i[k])
+        t = t - d[k] * (h[k] * c[k])
+        t = t - g[k] * (b[k] * f[k])
+        lanes.append(t)
+    return V4(*lanes)
+
+
+def code_det(m, n, F):
+    """determinant in the shape the code computes it"""
+    a = lambda c, r: at(m, c, r)
+    if n == 2:
+        return a(0, 0) * a(1, 1) - a(1, 0) * a(0, 1)
+    if n == 3:
+        return (a(0, 0) * (a(1, 1) * a(2, 2) - a(2, 1) * a(1, 2)) - a(1, 0) * (a(0, 1) * a(2, 2) - a(2, 1) * a(0, 2))
+                + a(2, 0) * (a(0, 1) * a(1, 2) - a(1, 1) * a(0, 2)))
+    tmp = F['m4_det_sub123'](m)
+    return F['v4_dot'](tmp, V[4](a(0, 0), a(1, 0), a(2, 0), a(3, 0)))
+
+
+def minor3(t, i, j):
+    """Matrix3 built by the cofactor closure of Matrix4::invert: columns of t except i, each with row j dropped"""
+    V3, M3 = V[3], M[3]
+    keepc = [c for c in range(4) if c != i]
+    keepr = [r for r in range(4) if r != j]
+    return M3(*[V3(*[at(t, c, r) for r in keepr]) for c in keepc])
+
+
+class InvGen:
+    """generates the flat certificate lemmas for M*N = N*M = I with N the inverse the code computes"""
+
+    def __init__(self, n, F):
+        self.n = n
+        self.F = F
+        self.T = M[n]
+        self.m = self.T.var('m')
+        self.d = R('d', 'd')
+        self.texts = []
+        self.lemmas = []
+        self.generic = set()
+        self.det_flat = leibniz(self.m, n).flat
+
+    def code_inverse(self):
+        """entries N[c][r] as (numerator R, kind) in the shape the code computes them"""
+        n, m, d, F = self.n, self.m, self.d, self.F
+        a = lambda c, r: at(m, c, r)
+        if n == 2:
+            X = [[a(1, 1), -a(0, 1)], [-a(1, 0), a(0, 0)]]
+            return [[(X[c][r], 'div') for r in range(2)] for c in range(2)]
+        if n == 3:
+            V3 = V[3]
+            cs = cols(m)
+            cr = F['v3_cross'].pyfn
+            pre = [cr(cs[1], cs[2]), cr(cs[2], cs[0]), cr(cs[0], cs[1])]   # columns before the transpose
+            # N = from_cols(pre[0]/d, pre[1]/d, pre[2]/d).transpose(): N[c][r] = pre[r][c] / d
+            return [[(comps(pre[r])[c], 'div') for r in range(3)] for c in range(3)]
+        # n == 4: N[c][r] = cf(c, r) = det3(minor(t, c, r)) * sign * inv with t = transpose(m)
+        t = F['m4_transpose'].pyfn(m)
+        out = []
+        for c in range(4):
+            row = []
+            for r in range(4):
+                mu = leibniz(minor3(t, c, r), 3)
+                sign = -R.lit(1) if (c + r) % 2 == 1 else R.lit(1)
+                row.append((mu * sign, 'inv'))
+            out.append(row)
+        return out
+
+    def generate(self):
+        n, m, d = self.n, self.m, self.d
+        N = self.code_inverse()
+        kind = N[0][0][1]
+        atoms = [leaf.flat for leaf in m.leaves()]
+        mparams = ', '.join('%s: real' % a for a in atoms)
+        margs = ', '.join(atoms)
+        inv = R('inv', 'inv')
+        inner_calls = []
+        ens = []
+        # quotient atoms
+        if kind == 'div':
+            qname = {}
+            qdefs = []
+            for c in range(n):
+                for r in range(n):
+                    qname[(c, r)] = 'q%d%d' % (c, r)
+                    qdefs.append((qname[(c, r)], N[c][r][0].flat))
+            qparams = ', '.join('%s: real' % q for q, _ in qdefs)
+            qreq = ['d * %s == %s' % (q, x) for q, x in qdefs]
+            Nq = [[R('?', qname[(c, r)]) for r in range(n)] for c in range(n)]
+            Nreal = [[R('?', '(%s / d)' % N[c][r][0].flat) for r in range(n)] for c in range(n)]
+        else:
+            qparams = 'inv: real'
+            qreq = ['d * inv == 1real']
+            Nq = [[N[c][r][0] * inv for r in range(n)] for c in range(n)]
+            invreal = R('?', '(1real / d)')
+            Nreal = [[N[c][r][0] * invreal for r in range(n)] for c in range(n)]
+        for side in ('MN', 'NM'):
+            for c in range(n):
+                for r in range(n):
+                    t = '1real' if c == r else '0real'
+                    terms_q, terms_x, terms_real, used = [], [], [], []
+                    for k in range(n):
+                        if side == 'MN':
+                            a_k = at(m, k, r)
+                            nq, nx, nr = Nq[c][k], N[c][k][0], Nreal[c][k]
+                            terms_q.append('(%s * %s)' % (a_k.flat, nq.flat))
+                            terms_real.append('(%s * %s)' % (a_k.flat, nr.flat))
+                            used.append((c, k))
+                        else:
+                            a_k = at(m, c, k)
+                            nq, nx, nr = Nq[k][r], N[k][r][0], Nreal[k][r]
+                            terms_q.append('(%s * %s)' % (nq.flat, a_k.flat))
+                            terms_real.append('(%s * %s)' % (nr.flat, a_k.flat))
+                            used.append((k, r))
+                        terms_x.append((a_k.flat, nx.flat))
+
+                    def lsum(ts):
+                        acc = ts[0]
+                        for x in ts[1:]:
+                            acc = '(%s + %s)' % (acc, x)
+                        return acc
+                    lhs_q = lsum(terms_q)
+                    lhs_real = lsum(terms_real)
+                    sum_ax = ' + '.join('%s * %s' % (a, x) for a, x in terms_x)
+                    name = 'm%d_inv_%s_%d%d' % (n, side, c, r)
+                    allparams = '%s, d: real, %s' % (mparams, qparams)
+                    allargs = '%s, d, %s' % (margs, ', '.join(q for q, _ in qdefs) if kind == 'div' else 'inv')
+                    # pass B: (I2) the Laplace identity of this entry, with the concrete polynomials; (I1) is generic (p_inv_id_*)
+                    laplace = '(%s) - %s * (%s) == 0real' % (sum_ax, t, self.det_flat)
+                    pb = 'pub proof fn p_%s(%s)\n    ensures %s,\n{\n    assert(%s) by(nonlinear_arith);\n}\n' % (name, mparams, laplace, laplace)
+                    self.texts.append(pb)
+                    if kind == 'div':
+                        cert = ' + '.join('%s * (d * %s - %s)' % (a, qname[u], x) for (a, x), u in zip(terms_x, used))
+                        gen_args = ', '.join([a for a, _ in terms_x] + [x for _, x in terms_x] + [qname[u] for u in used] + ['d', self.det_flat, t])
+                    else:
+                        cert = '(%s) * (d * inv - 1real)' % sum_ax
+                        gen_args = ', '.join([a for a, _ in terms_x] + [x for _, x in terms_x] + ['inv', 'd', self.det_flat, t])
+                    ident = 'd * (%s - %s) == %s + ((%s) - %s * (%s)) + %s * ((%s) - d)' % (
+                        lhs_q, t, cert, sum_ax, t, self.det_flat, t, self.det_flat)
+                    gen_name = 'p_inv_id_%s_%s_%d' % (kind, side, n)
+                    self.generic.add((kind, side, n))
+                    # pass A: linear combination + two tiny nonlinear facts
+                    pa = 'pub proof fn %s(%s)\n    requires d != 0real, d == %s, %s,\n    ensures %s == %s,\n{\n    poly::p_%s(%s);\n    poly::%s(%s);\n    assert(%s);\n' % (
+                        name, allparams, self.det_flat, ', '.join(qreq), lhs_q, t, name, margs, gen_name, gen_args, ident)
+                    if kind == 'div':
+                        for (a, x), u in zip(terms_x, used):
+                            pa += '    assert(%s * (d * %s - %s) == 0real) by(nonlinear_arith) requires d * %s == %s;\n' % (a, qname[u], x, qname[u], x)
+                    else:
+                        pa += '    assert((%s) * (d * inv - 1real) == 0real) by(nonlinear_arith) requires d * inv == 1real;\n' % sum_ax
+                    pa += '    assert(%s * ((%s) - d) == 0real) by(nonlinear_arith) requires d == %s;\n' % (t, self.det_flat, self.det_flat)
+                    pa += '    assert(d * (%s - %s) == 0real);\n' % (lhs_q, t)
+                    pa += '    assert(%s == %s) by(nonlinear_arith) requires d * (%s - %s) == 0real, d != 0real;\n}\n' % (lhs_q, t, lhs_q, t)
+                    self.lemmas.append(pa)
+                    if kind == 'div':
+                        qargs = ', '.join('(%s / d)' % x for _, x in qdefs)
+                    else:
+                        qargs = '(1real / d)'
+                    inner_calls.append('    %s(%s, d, %s);\n' % (name, margs, qargs))
+                    ens.append('%s == %s' % (lhs_real, t))
+        outer = 'pub proof fn m%d_inverse(%s, d: real)\n    requires d != 0real, d == %s,\n    ensures %s,\n{\n' % (
+            n, mparams, self.det_flat, ',\n        '.join(ens))
+        if kind == 'div':
+            for q, x in qdefs:
+                outer += '    assert(d * (%s / d) == %s) by(nonlinear_arith) requires d != 0real;\n' % (x, x)
+        else:
+            outer += '    assert(d * (1real / d) == 1real) by(nonlinear_arith) requires d != 0real;\n'
+        outer += ''.join(inner_calls) + '}\n'
+        self.lemmas.append(outer)
+        call = 'm%d_inverse(%s, det@);' % (n, ', '.join('self.%s.%s@' % (XYZW[c], XYZW[r]) for c in range(n) for r in range(n)))
+        return call
+
+
+def generic_inv_identity(kind, side, n):
+    a = ['a%d' % k for k in range(n)]
+    x = ['x%d' % k for k in range(n)]
+    q = ['q%d' % k for k in range(n)]
+    if kind == 'div':
+        params = a + x + q + ['d', 'D', 't']
+        terms = ['(%s * %s)' % ((a[k], q[k]) if side == 'MN' else (q[k], a[k])) for k in range(n)]
+        cert = ' + '.join('%s * (d * %s - %s)' % (a[k], q[k], x[k]) for k in range(n))
+    else:
+        params = a + x + ['inv', 'd', 'D', 't']
+        terms = ['(%s * (%s * inv))' % (a[k], x[k]) if side == 'MN' else '((%s * inv) * %s)' % (x[k], a[k]) for k in range(n)]
+        cert = '(%s) * (d * inv - 1real)' % ' + '.join('%s * %s' % (a[k], x[k]) for k in range(n))
+    lhs = terms[0]
+    for tt in terms[1:]:
+        lhs = '(%s + %s)' % (lhs, tt)
+    sum_ax = ' + '.join('%s * %s' % (a[k], x[k]) for k in range(n))
+    ident = 'd * (%s - t) == %s + ((%s) - t * (D)) + t * ((D) - d)' % (lhs, cert, sum_ax)
+    return 'pub proof fn p_inv_id_%s_%s_%d(%s)\n    ensures %s,\n{\n    assert(%s) by(nonlinear_arith);\n}\n' % (
+        kind, side, n, ', '.join(p + ': real' for p in params), ident, ident)
+
+
+def build_c02(lib, F):
+    F['m4_det_sub123'] = lib.fn('m4_det_sub123', [M[4]], V[4], argnames=['m'])(det_sub123)
+
+
+def cf_spec():
+    """spec of the cofactor closure of Matrix4::invert (text: it takes int indices)"""
+    t = M[4].var('t')
+    cases = []
+    for i in range(4):
+        for j in range(4):
+            mat = minor3(t, i, j)
+            sign = 's_neg(s_one())' if (i + j) % 2 == 1 else 's_one()'
+            cases.append('if i == %d && j == %d { s_mul(s_mul(m3_det(%s), %s), inv) }' % (i, j, mat.spec, sign))
+    return 'pub open spec fn m4_cf(t: Matrix4<Sc>, i: int, j: int, inv: Sc) -> Sc {\n    ' + '\n    else '.join(cases) + '\n    else { s_zero() }\n}\n'
+
+
+def c02_hints(F):
+    """shape lemmas (code-shaped determinant == Leibniz) and inverse certificates; returns (hints dict, poly texts)"""
+    hints, polys, lemmas = {}, [], []
+    for n in (2, 3, 4):
+        L = Law('m%d_det_shape' % n, [('m', M[n])])
+        m, = L.vars
+        L.eq(code_det(m, n, F), leibniz(m, n))
+        pa, pb = L.render()
+        polys.append(pb)
+        hints[('det', n)] = rename_call(L, {'m': 'self'})
+        g = InvGen(n, F)
+        hints[('inv', n)] = g.generate()
+        polys += g.texts
+        polys += [generic_inv_identity(*k) for k in sorted(g.generic)]
+        lemmas += g.lemmas
+    return hints, polys, lemmas
+
+
+def contracts_c02(hints):
+    def fn(unit, im, f):
+        st, self_ref = base_type(im.selfty)
+        tn = trait_name(im.trait)
+        name = f.name
+        if not re.fullmatch(r'Matrix[2-4]', st):
+            return None
+        n = int(st[-1])
+        p = 'm%d' % n
+        inv_ens = ['ret.is_none() <==> %s_det(*self)@ == 0real' % p,
+                   'ret.is_some() ==> %s_mul(*self, ret.unwrap()) == %s_identity() && %s_mul(ret.unwrap(), *self) == %s_identity()' % (p, p, p, p)]
+        if tn == 'SquareMatrix' and name == 'determinant':
+            return Contract(ensures=['ret == %s_det(*self)' % p], tail=hints[('det', n)], tags=('identity',))
+        if tn == 'SquareMatrix' and name == 'invert':
+            if n in (2, 3):
+                return Contract(ensures=inv_ens, tags=('identity',), tail='if det@ != 0real { %s }' % hints[('inv', n)])
+            cl = {0: dict(params='i: isize, j: isize', ret='r: Sc', requires=['0 <= i < 4', '0 <= j < 4'],
+                          ensures=['r == m4_cf(t, i as int, j as int, inv_det)'],
+                          pre='let ij: isize = (i + j) as isize; assert((ij & 1 == 1) == (ij % 2 == 1)) by(bit_vector) requires 0 <= ij < 8;')}
+            return Contract(ensures=inv_ens, tags=('identity',), closures=cl, tail='if det@ != 0real { %s }' % hints[('inv', n)])
+        if tn == 'Transform' and name == 'inverse_transform':
+            return Contract(ensures=inv_ens)
+        return None
+    return fn
+
+
+def contract_det_sub(unit, im, f):
+    if im is None and f.name == 'det_sub_proc_unsafe':
+        return Contract(requires=['$1 == 1', '$2 == 2', '$3 == 3'], ensures=['ret == m4_det_sub123(*$0)'])
+    return None
+
+
+def laws_c02(F, dims=(2, 3, 4)):
+    out = []
+    for n in dims:
+        T = M[n]
+        p = 'm%d' % n
+        g = lambda s: F['%s_%s' % (p, s)]
+        L = Law('%s_transpose' % p, [('a', T), ('b', T)])
+        a, b = L.vars
+        L.eq(g('transpose')(g('transpose')(a)), a)
+        L.eq(g('transpose')(g('mul')(a, b)), g('mul')(g('transpose')(b), g('transpose')(a)))
+        L.eq(g('det')(g('transpose')(a)), g('det')(a))
+        out.append(L)
+        L = Law('%s_det_mul' % p, [('a', T), ('b', T)])
+        a, b = L.vars
+        L.eq(g('det')(g('mul')(a, b)), g('det')(a) * g('det')(b))
+        out.append(L)
+    return out
